@@ -676,6 +676,34 @@ func runC18(r *Run) {
 		})
 		r.atLeast("in-loop removals", n, 1)
 	})
+
+	r.rule("R11", "the request URL is a function of the configuration, not of map order: path parameters are substituted one after the other (order matters when one name prefixes another), so their visitor does not call back from inside a map iteration (E7)", func() {
+		u := r.Fn(cliPkg, "parserRequestURL")
+		// the substitution is order-dependent: each step rewrites the result of the previous one
+		orderDependent := false
+		for _, a := range anonFuncsDeep(u) {
+			for _, c := range callsMatching(a, false, nameIs("strings.ReplaceAll", "strings.Replace")) {
+				if cellName(c.Common.Args[0]) != "" || dependsOn(c.Common.Args[0], func(v ssa.Value) bool { _, ok := v.(*ssa.FreeVar); return ok }) != nil {
+					orderDependent = true
+				}
+			}
+		}
+		if !orderDependent {
+			r.ok("PathParam.VisitAll:ordered", r.fpos(u), "path parameters are not substituted by successive rewriting")
+			return
+		}
+		v := firstFn(r, cliPkg, "(PathParam).VisitAll", "(*PathParam).VisitAll")
+		bad := ""
+		for _, mr := range mapRangesIn(v) {
+			for _, c := range callsIn(v, false) {
+				if _, isParam := c.Common.Value.(*ssa.Parameter); isParam && mr.Loop[c.Block()] {
+					bad = r.pos(c.Instr)
+				}
+			}
+		}
+		r.check(bad == "", "PathParam.VisitAll:ordered", r.fpos(v), "the callback is not invoked from inside a map iteration (keys are collected and ordered first)",
+			"path parameters are handed to the substitution in map-iteration order ("+bad+"): with the names id and idx, /u/:idx becomes /u/2 or /u/1x from one call to the next — the request is not a deterministic function of the configuration")
+	})
 }
 
 func lvl(client bool) string {
